@@ -378,7 +378,7 @@ pub fn run_pool_variant(ctx: &Ctx) {
     let n = ctx.tier.pick(1_500, 30_000);
     ctx.run_prop(
         "tls-pool-segmented",
-        "2..6 generated hellos on distinct flows, each cut into generated segments (first segment >= 5 bytes), segments of the flows interleaved, dispatched to the TLS worker pool (1..8 workers, batch 1..32; in half of the runs with a connection budget equal to the number of flows); oracle: exactly one result per flow, equal to the single-segment sequential result; non-trivial: >= 2 flows with >= 2 segments",
+        "2..6 generated hellos on distinct flows (in half of the runs from one client address, differing in the source port only), each cut into generated segments (first segment >= 5 bytes), segments of the flows interleaved, dispatched to the TLS worker pool (1..8 workers, batch 1..32; in half of the runs with a connection budget equal to the number of flows); oracle: exactly one result per flow, equal to the single-segment sequential result; non-trivial: >= 2 flows with >= 2 segments",
         n,
         || (proptest::collection::vec((gt::hello(), proptest::collection::vec(any::<u16>(), 0..5)), 2..6), 1usize..9, 1usize..33, any::<u64>()),
         |(flows, workers, batch, seed): &(Vec<(Hello, Vec<u16>)>, usize, usize, u64), st: &mut Stats| {
@@ -390,7 +390,8 @@ pub fn run_pool_variant(ctx: &Ctx) {
                     return Ok(());
                 }
                 let rec = h.record();
-                let ip = Ip::V4(Ip4 { src: [10, 7, 0, i as u8 + 1], dst: [10, 7, 1, 1], ..Ip4::default() });
+                // every other run: all flows from ONE client address (they differ in the source port only)
+                let ip = Ip::V4(Ip4 { src: [10, 7, 0, if (seed >> 1) % 2 == 0 { 1 } else { i as u8 + 1 }], dst: [10, 7, 1, 1], ..Ip4::default() });
                 let mut cp = cut_positions(cuts, rec.len());
                 cp.retain(|c| *c >= 5);
                 let frames = seg_frames(&ip, 42000 + i as u16, 443, 1000, &split(&rec, &cp));
